@@ -134,7 +134,8 @@ class Code15(Code13):
 
     def freeze(self):
         for field in "co_consts co_names co_varnames co_freevars co_cellvars".split():
-            val = getattr(self, field)
+            # 1.5 .. 2.0 code objects have no free/cell variables
+            val = getattr(self, field, None)
             if isinstance(val, list):
                 setattr(self, field, tuple(val))
 
